@@ -23,6 +23,7 @@ RULE = (
     "to the whole read with block sizes as reported; twin: collapse/bandpass/read_chan/dedisperse/compute_stats over "
     "the PSRFITS reader equal those over a SIGPROC file holding the same samples; header foff/fch1/tsamp/tstart are "
     "plain floats equal to the planted DAT_FREQ/TBIN/STT_* and label the delivered rows. "
+    "DAT_SCL / DAT_OFFS / DAT_WTS are random, trivial (1 / 0 / 1) in every row, or trivial in some rows. "
     "Non-trivial = a request crossing a sub-integration boundary or not aligned to NSBLK."
 )
 ASSUMPTIONS = [
@@ -79,7 +80,10 @@ def strat_spec(draw):
             "seed": draw(st.integers(0, 2**31 - 1)), "imjd": draw(st.integers(50000, 60000)),
             "smjd": draw(st.integers(0, 86399)), "offs": draw(st.sampled_from([0.0, 0.25, 0.5])), "nstot": nstot,
             "gulps": draw(st.lists(st.integers(1, total + 3), min_size=1, max_size=4)),
-            "dm_frac": draw(st.floats(0, 1, allow_nan=False)), "chan": draw(st.integers(0, 64))}
+            "dm_frac": draw(st.floats(0, 1, allow_nan=False)), "chan": draw(st.integers(0, 64)),
+            "scl_kind": draw(st.sampled_from(["random", "random", "trivial", "mixed"])),
+            "offs_kind": draw(st.sampled_from(["random", "random", "trivial", "mixed"])),
+            "wts_kind": draw(st.sampled_from(["random", "random", "trivial", "mixed"]))}
 
 
 def check(spec, ctx):
@@ -91,7 +95,8 @@ def check(spec, ctx):
     model = psrfits.model_whole(spec, *planted)  # (nchan, N) float64
     nchan, N = model.shape
     lay = f"npol{spec['npol']}_{spec['pol_type']}"
-    ctxt = {k: spec[k] for k in ("nsub", "nsblk", "npol", "pol_type", "nchan", "nbits", "df", "zero_off", "nstot", "seed")}
+    cal = f"scl_{spec.get('scl_kind', 'random')}/offs_{spec.get('offs_kind', 'random')}/wts_{spec.get('wts_kind', 'random')}"
+    ctxt = {k: spec.get(k) for k in ("nsub", "nsblk", "npol", "pol_type", "nchan", "nbits", "df", "zero_off", "nstot", "seed", "scl_kind", "offs_kind", "wts_kind")}
     with warnings.catch_warnings():
         warnings.simplefilter("ignore")
         try:
@@ -221,7 +226,7 @@ def check(spec, ctx):
         a, b = both("compute_stats", st_)
         if not np.allclose(a, b, rtol=1e-5, atol=1e-4):
             raise Violation("twin:compute_stats", f"{ctxt} gulp={g}")
-    lab = [lay, f"{spec['nbits']}bit", "ascending" if spec["df"] > 0 else "descending"]
+    lab = [lay, f"{spec['nbits']}bit", "ascending" if spec["df"] > 0 else "descending", cal]
     if spec["nstot"] is not None:
         lab.append("nstot_short")
     return Info(crossing, tuple(lab))
